@@ -49,7 +49,8 @@ def socket_battery():
     server = MP_SPAWN_CTX.Process(target=run_server, args=(sock,))
     server.start()
     try:
-        with SocketClient(path=sock, num_connections=2) as client:
+        nconn = int(sys.argv[1]) if len(sys.argv) > 1 else 2
+        with SocketClient(path=sock, num_connections=nconn) as client:
             # (1) payload content and size
             rng = random.Random(18)
             payloads = [b'', '', 0, (), [], {}, b'\n', b'\n\n7 3 pickle\nabc', '12345 10 pickle\n', b'x 1 none\ny', 'a b c\n' * 1000,
